@@ -21,15 +21,16 @@
    (MC_TocFetch_bug_*.cfg must be refuted).  *)
 EXTENDS Naturals, Sequences, FiniteSets, Bags, TLC
 
-CONSTANTS Configs,   \* set of [kind, ver, dev, cached, resend] one download may be started with
+CONSTANTS Configs,   \* set of [kind, ver, dev, crc, cached, resend] one download may be started with
           Budget,    \* number of environment faults (Dup + Timeout) per download
+          Window,    \* faults are injected only while the index being fetched is in this set
           Bug
 
 P == INSTANCE TocFetchProps
 
 VARIABLES cfg,                      \* chosen by Start, constant afterwards
           fstate, cbOn, reqIdx, nItems,   \* TocFetcher.state / port callback registered / requested_index / nbr_of_items
-          toc,                      \* Toc.toc as the sequence of elements in insertion order
+          toc,                      \* Toc.toc as the sequence of elements in dict iteration order
           pend,                     \* Crazyflie._answer_patterns (set of [ch, d]: pattern = request here)
           up, down,                 \* requests on their way to the device (FIFO); replies in flight (bag)
           budget,
@@ -43,14 +44,13 @@ NoReq == 65536                      \* _req_param = -1
 Lo(i) == i % 256
 Hi(i) == i \div 256
 N == Len(cfg.dev)
-Crc == <<17, 34, 51, 68>>
 
 \* ---------------------------------------------------------------- the device (simdev twin)
 DevAnswer(rq) ==
     LET c == rq.d[1] IN
     IF rq.ch = 0 THEN
-      CASE c = 3 -> [ch |-> 0, d |-> <<3, Lo(N), Hi(N)>> \o Crc \o (IF cfg.kind = "log" THEN <<16, 128>> ELSE <<>>)]
-        [] c = 1 -> [ch |-> 0, d |-> <<1, Lo(N)>> \o Crc \o (IF cfg.kind = "log" THEN <<16, 128>> ELSE <<>>)]
+      CASE c = 3 -> [ch |-> 0, d |-> <<3, Lo(N), Hi(N)>> \o cfg.crc \o (IF cfg.kind = "log" THEN <<16, 128>> ELSE <<>>)]
+        [] c = 1 -> [ch |-> 0, d |-> <<1, Lo(N)>> \o cfg.crc \o (IF cfg.kind = "log" THEN <<16, 128>> ELSE <<>>)]
         [] c = 2 -> LET i == rq.d[2] + 256 * rq.d[3] IN
                     IF i < N THEN [ch |-> 0, d |-> <<2, rq.d[2], rq.d[3], cfg.dev[i + 1].type>> \o
                                                    cfg.dev[i + 1].group \o <<0>> \o cfg.dev[i + 1].name \o <<0>>]
@@ -88,25 +88,25 @@ Decode(ident, data) ==
              access |-> IF P!Bit(m, IF Bug = "AccessMask" THEN 32 ELSE 64) THEN 1 ELSE 0,
              extended |-> P!Bit(m, 16), persistent |-> FALSE]
 
-\* Toc.add_element: dict semantics (same group.name replaces in place)
+\* Toc.add_element on the nested dict {group: {name: element}}.  `toc` is kept in the iteration
+\* order of that dict (groups by first insertion, names by insertion within the group): the same
+\* group.name replaces in place, a new name of a known group goes behind the last element of the
+\* group, a new group goes to the end.
 AddElement(t, e) ==
     IF \E i \in DOMAIN t : t[i].group = e.group /\ t[i].name = e.name
     THEN [i \in DOMAIN t |-> IF t[i].group = e.group /\ t[i].name = e.name THEN e ELSE t[i]]
-    ELSE Append(t, e)
-
-\* iteration order of the nested dict: groups by first insertion, names by insertion
-\* (written without recursion: key = (first position of the element's group, own position))
-Grouped(t) ==
-    LET n == Len(t)
-        fpos == [i \in 1..n |-> CHOOSE j \in 1..i : t[j].group = t[i].group /\
-                                        \A j2 \in 1..(j - 1) : t[j2].group # t[i].group]
-        key == [i \in 1..n |-> fpos[i] * (n + 1) + i]
-        rank == [i \in 1..n |-> Cardinality({j \in 1..n : key[j] < key[i]}) + 1]
-    IN [k \in 1..n |-> t[CHOOSE i \in 1..n : rank[i] = k]]
+    ELSE LET S == {i \in DOMAIN t : t[i].group = e.group} IN
+         IF S = {} THEN Append(t, e)
+         ELSE LET p == CHOOSE i \in S : \A j \in S : j <= i IN
+              SubSeq(t, 1, p) \o <<e>> \o SubSeq(t, p + 1, Len(t))
+Grouped(t) == t
 
 \* what the cache returns on a hit: the table as stored by an earlier complete download
 \* (TocCache stores ident, group, name, ctype, pytype, access, extended; not persistent)
-CachedToc == [k \in 1..N |-> [P!Expected(cfg.kind, k, cfg.dev[k]) EXCEPT !.persistent = FALSE]]
+CachedToc ==
+    LET F[k \in 0..N] == IF k = 0 THEN <<>>
+                         ELSE AddElement(F[k - 1], [P!Expected(cfg.kind, k, cfg.dev[k]) EXCEPT !.persistent = FALSE])
+    IN F[N]
 
 \* ---------------------------------------------------------------- lookups (as implemented)
 None == <<>>
@@ -150,16 +150,20 @@ Idle(c) == /\ cfg = c
            /\ xstate = "off" /\ xcount = 0 /\ xreq = NoReq /\ xqueue = <<>> /\ xlock = FALSE
            /\ done = FALSE /\ doneSnap = <<>>
 
-NoCfg == [kind |-> "none", ver |-> 0, dev |-> <<>>, cached |-> FALSE, resend |-> FALSE]
+NoCfg == [kind |-> "none", ver |-> 0, dev |-> <<>>, crc |-> <<>>, cached |-> FALSE, resend |-> FALSE]
 Init == Idle(NoCfg)
 
 \* TocFetcher.start: register the port callback, ask for the table info
-Start(c) == /\ fstate = "idle" /\ cfg = NoCfg
-            /\ cfg' = c
-            /\ fstate' = "info" /\ cbOn' = TRUE
-            /\ up' = <<[ch |-> 0, d |-> IF c.ver = 2 THEN <<3>> ELSE <<1>>]>>
-            /\ pend' = IF c.resend THEN {[ch |-> 0, d |-> IF c.ver = 2 THEN <<3>> ELSE <<1>>]} ELSE {}
-            /\ UNCHANGED <<reqIdx, nItems, toc, down, budget, xstate, xcount, xreq, xqueue, xlock, done, doneSnap>>
+\* (StartTo also resets everything else: a fetcher is a fresh object for every download)
+StartTo(c) ==
+    /\ cfg' = c
+    /\ fstate' = "info" /\ cbOn' = TRUE /\ reqIdx' = 0 /\ nItems' = 0 /\ toc' = <<>>
+    /\ up' = <<[ch |-> 0, d |-> IF c.ver = 2 THEN <<3>> ELSE <<1>>]>>
+    /\ pend' = IF c.resend THEN {[ch |-> 0, d |-> IF c.ver = 2 THEN <<3>> ELSE <<1>>]} ELSE {}
+    /\ down' = EmptyBag /\ budget' = Budget
+    /\ xstate' = "off" /\ xcount' = 0 /\ xreq' = NoReq /\ xqueue' = <<>> /\ xlock' = FALSE
+    /\ done' = FALSE /\ doneSnap' = <<>>
+Start(c) == fstate = "idle" /\ cfg = NoCfg /\ StartTo(c)
 
 \* ---------------------------------------------------------------- completion chain
 \* _toc_fetch_finished -> finished_callback.  log: done.  param: Param.refresh_toc.refresh_done
@@ -190,7 +194,7 @@ FetcherCb(r, pend1) ==
              /\ UNCHANGED <<fstate, cbOn, reqIdx, nItems, toc, up, xstate, xcount, xreq, xqueue, xlock, done, doneSnap>>
         ELSE LET n == IF cfg.ver = 2 THEN payload[1] + 256 * payload[2] ELSE payload[1] IN
              /\ nItems' = n
-             /\ IF cfg.cached
+             /\ IF cfg.cached /\ N > 0          \* `if (cache_data)`: an empty cached table is falsy = a miss
                 THEN /\ Finish(CachedToc, pend1, up)
                      /\ UNCHANGED <<fstate, reqIdx>>
                 ELSE /\ fstate' = "elem" /\ reqIdx' = 0
@@ -271,14 +275,20 @@ DevReply == /\ up # <<>>
             /\ UNCHANGED <<cfg, fstate, cbOn, reqIdx, nItems, toc, pend, budget,
                            xstate, xcount, xreq, xqueue, xlock, done, doneSnap>>
 
-Dup(r) == /\ budget > 0 /\ BagIn(r, down)
+\* large tables: the faults are placed around the indices of interest (a stale reply may still
+\* arrive at any later moment)
+Hot == IF fstate = "elem" /\ cbOn THEN reqIdx \in Window
+       ELSE IF xstate = "run" /\ ~done /\ xreq # NoReq THEN xreq \in Window
+       ELSE TRUE
+
+Dup(r) == /\ budget > 0 /\ BagIn(r, down) /\ Hot
           /\ down' = down (+) SetToBag({r})
           /\ budget' = budget - 1
           /\ UNCHANGED <<cfg, fstate, cbOn, reqIdx, nItems, toc, pend, up,
                          xstate, xcount, xreq, xqueue, xlock, done, doneSnap>>
 
 \* the awaited reply is late: the retry timer fires and the same request goes out again
-Timeout(q) == /\ budget > 0 /\ q \in pend
+Timeout(q) == /\ budget > 0 /\ q \in pend /\ Hot
               /\ up' = Append(up, q)
               /\ budget' = budget - 1
               /\ UNCHANGED <<cfg, fstate, cbOn, reqIdx, nItems, toc, pend, down,
